@@ -149,6 +149,15 @@ class Engine:
         return ''
 
     @staticmethod
+    def call_name_of(call: ast.Call) -> str:
+        f = call.func
+        if isinstance(f, ast.Attribute):
+            return f.attr
+        if isinstance(f, ast.Name):
+            return f.id
+        return ''
+
+    @staticmethod
     def targets(node: Node) -> List[str]:
         res = node.extra.get('res')
         if node.kind == 'call_enter':
